@@ -6,6 +6,7 @@ import (
 
 	hydrapb "github.com/hydraide/hydraide/sdk/go/hydraidego/v3/hydraidepbgo"
 
+	"verifharness/internal/pbt"
 	"verifharness/internal/rig"
 )
 
@@ -408,9 +409,9 @@ func (d *Driver) step(op *Op) (Verdict, *Incident) {
 
 func (e *Env) wd() time.Duration {
 	if e.Watchdog == 0 {
-		return 10 * time.Second
+		return pbt.Bound(10 * time.Second)
 	}
-	return e.Watchdog
+	return pbt.Bound(e.Watchdog)
 }
 
 // CheckContents compares the full contents and the existence flag of every
